@@ -3,8 +3,28 @@ use std::collections::BTreeMap;
 use std::io::Write;
 use std::panic::{catch_unwind, AssertUnwindSafe};
 
+static LAST_PANIC: std::sync::Mutex<String> = std::sync::Mutex::new(String::new());
+
 pub fn quiet_panics() {
-	std::panic::set_hook(Box::new(|_| {}));
+	std::panic::set_hook(Box::new(|info| {
+		let msg = if let Some(s) = info.payload().downcast_ref::<&str>() {
+			s.to_string()
+		} else if let Some(s) = info.payload().downcast_ref::<String>() {
+			s.clone()
+		} else {
+			"panic".to_string()
+		};
+		if let Ok(mut g) = LAST_PANIC.lock() {
+			*g = msg;
+		}
+	}));
+}
+
+/// message of the most recent panic, reduced to a token usable in a signature
+pub fn last_panic_tag() -> String {
+	let m = LAST_PANIC.lock().map(|g| g.clone()).unwrap_or_default();
+	let t: String = m.chars().map(|c| if c.is_ascii_alphanumeric() { c } else { '_' }).collect();
+	t.chars().take(48).collect()
 }
 
 /// run `f`, mapping a panic to `None`
